@@ -250,7 +250,7 @@ def check(tier):
     rep.obligation("translator read the command-line code (gen/CliGo.v)", tr_err is None and "could not read" not in gen_text)
     files = {"theories/Props/C16.vo": ["existing_entries_untouched", "exit0_implies_package_complete", "package_complete_implies_exit0",
                                        "not_accepted_implies_failure", "name_flag_replaces_grammar_name", "without_name_flag_grammar_name",
-                                       "everything_created_is_under_out_name"],
+                                       "everything_created_is_under_out_name", "package_directory_is_created_by_the_run"],
              "theories/Props/C16Names.vo": ["unusable_package_name_rejected"],
              "theories/Props/C16Flags.vo": ["bad_flags_exit_cleanly", "cli_never_panics"]}
     broken = {}
@@ -332,6 +332,20 @@ def check(tier):
     rep.obligation("status 0 => success announced and the six files completely written (%d successful runs)" % len(ok_runs), not incomplete and len(ok_runs) > 0)
     for r in incomplete[:2]:
         rep.failure("exit0", {"exit0"}, {"argv": r["argv"], "out_state": r["out_state"], "created": r["created"]})
+    def into_existing(r):
+        made = set(p for p, n in r["created"])
+        for p, n in r["created"]:
+            parent = p.rsplit("/", 1)[0] if "/" in p else "."
+            if parent not in made and parent not in (r["c_out"], "."):
+                return p
+            if parent in (".",) and r["c_out"] != "." and "/" not in p:
+                return p                      # created next to <out>, outside it
+        return None
+    intruders = [(r, into_existing(r)) for r, _ in runs + bad_runs if into_existing(r)]
+    rep.obligation("nothing is created inside a directory that existed before the run, or outside <out> (only the new <out>/<name>)", not intruders)
+    for r, p_ in intruders[:3]:
+        rep.failure("existing-directory", {"existing-directory"}, {"argv": r["argv"], "out_state": r["out_state"], "input": r["input"],
+                                                                    "created_in_existing_directory": p_, "created": r["created"]})
     announced_fail = [r for r, kw in runs + bad_runs if r["announced"] and r["status"] != 0]
     rep.obligation("success is announced only with status 0", not announced_fail)
     unusable = [r for r, kw in runs if not kw and r["input"] in ("accepted", "dfa_fails", "lalr_fails", "both_fail") and r["name"]
